@@ -51,7 +51,12 @@ def main():
             sys.stdout.flush()
         finally:
             shutil.rmtree(tmp, ignore_errors=True)
-    json.dump({'seed': os.environ.get('VERIF_SEED', '1'), 'results': out}, open(os.path.join(HERE, 'seeded', os.environ.get('SEEDED_OUT', 'RESULTS.json')), 'w'), indent=1)
+    path = os.path.join(HERE, 'seeded', os.environ.get('SEEDED_OUT', 'RESULTS.json'))
+    if a.only and os.path.exists(path):
+        prev = json.load(open(path)).get('results', {})      # partial run: keep the other entries
+        prev.update(out)
+        out = prev
+    json.dump({'seed': os.environ.get('VERIF_SEED', '1'), 'results': out}, open(path, 'w'), indent=1)
     return 0
 
 
